@@ -71,7 +71,10 @@ FinSound(p2) ==
   /\ \A i \in DOMAIN St.iskip : St.iskip[i] < p2.fup \/ p2.fst[St.iskip[i]][1] = "iskip"
 FinComplete(p1, p2) ==
   \A s \in 1..MaxSlot :
-     (p2.fst[s] # p1.fst[s] /\ p2.fst[s][1] \in {"fin", "ifin", "iskip"} /\ s >= p2.fup) =>
+     \* (a slot that was already decided only changes its status, e.g. implicitly finalized -> finalized when
+     \*  its own fast-finalization certificate arrives later: nothing new is reported)
+     (p2.fst[s] # p1.fst[s] /\ p2.fst[s][1] \in {"fin", "ifin", "iskip"} /\ s >= p2.fup
+        /\ p1.fst[s][1] \notin {"fin", "ifin", "iskip"}) =>
         IF p2.fst[s][1] = "iskip" THEN \E i \in DOMAIN St.iskip : St.iskip[i] = s
         ELSE \E i \in DOMAIN St.fin : St.fin[i].s = s /\ St.fin[i].h = p2.fst[s][2]
 HighestMatches(p1, p2) ==
